@@ -52,7 +52,7 @@ PROPERTIES['C03'] = {
     'level_note': _DOC_NOTE,
 }
 PROPERTIES['C05'] = {
-    'modules': ['harness.rep_ops', 'harness.view_ops', 'harness.c17_spacing'], 'budget': {'quick': 900, 'thorough': 3300},
+    'modules': ['harness.rep_ops', 'harness.view_ops', 'harness.c17_spacing', 'harness.claim_hist'], 'budget': {'quick': 900, 'thorough': 3300},
     'level_text': _DOC_TEXT % 'a generic walker over the field descriptors checking store membership, span nesting/order/disjointness and leaf ownership',
     'level_note': _DOC_NOTE,
 }
@@ -112,14 +112,14 @@ PROPERTIES['C20'] = {
     'level_note': _SEL_NOTE,
 }
 PROPERTIES['C04'] = {
-    'modules': ['harness.tree_props', 'harness.view_ops'], 'budget': {'quick': 1200, 'thorough': 3300},
+    'modules': ['harness.tree_props', 'harness.view_ops', 'harness.claim_hist'], 'budget': {'quick': 1200, 'thorough': 3300},
     'level_text': 'Solver-enumerated sequences of non-editing operations (attribute reads found by introspection, views, ==, hash, deepcopy, print, '
                   'claim/unclaim/auto-claim) on every model of each document: printed text and the identity/order/text of visible tokens must not change.',
     'level_note': _SEL_NOTE,
 }
 
 PROPERTIES['C14'] = {
-    'modules': ['harness.c14_comments', 'harness.view_ops'], 'budget': {'quick': 1500, 'thorough': 3300},
+    'modules': ['harness.c14_comments', 'harness.view_ops', 'harness.claim_hist'], 'budget': {'quick': 1500, 'thorough': 3300},
     'level_text': 'Solver-enumerated layouts (every sequence of up to 5-6 lines over 10 line kinds that the grammar accepts) and claim/unclaim/auto-claim '
                   'call sequences: ownership uniqueness and the claimed flag from a generic walk, no unowned comment after default parsing, idempotence, '
                   'parse-time == later attribution, unclaim+claim restores, and the documented leading/trailing/standalone order against a reference '
